@@ -56,7 +56,10 @@ def run_with_crashes(make_proc, crash_points, resume_for_wait, transport=None, b
                     idx = boundary[0]
                     boundary[0] += 1
                     if idx in crash_points:
-                        snapshot[0] = plumpy.Bundle(p)
+                        # a process with a context must be dereferenced at once (the saved state only points to the live ctx, see
+                        # ContextMixin.save_instance_state); otherwise the plain in-memory bundle is kept and serialised later, so
+                        # that values shared with the still running original would show
+                        snapshot[0] = plumpy.Bundle(p, dereference=isinstance(p, plumpy.ContextMixin))
                         crash[0] = True
                         log.append(['checkpoint', idx, to, len(p.trace)])
 
